@@ -1030,7 +1030,8 @@ def known_pattern(case, sig):
     D50-D55 (fixes/C09/*.diff) are gone: each of them is a violation again."""
     fam, op, chk = case["fam"], case["op"], sig.get("check")
     tds = [o for o in case.get("args", []) if o["k"] == "td"]
-    if fam in ("binary", "ternary") and op not in COMPARE and op not in ("where", "clamp") and chk in ("value", "raises"):
+    # clamp(min, max) dispatches to clamp_min / clamp_max (base.py): the same fused binary site as D56 (found by the thorough tier)
+    if fam in ("binary", "ternary") and op not in COMPARE and op != "where" and chk in ("value", "raises"):
         s = case["self"]
         if s.get("kind") == "lazy" and any(
                 o.get("kind") == "lazy" and ((list(o["bs"]) == list(s["bs"]) and o.get("stack_dim") != s.get("stack_dim"))
